@@ -654,7 +654,7 @@ func randCols(r *rng, depth int, weird bool, types bool) []colDesc {
 	return cols
 }
 
-var scalarTexts = []string{`null`, `true`, `false`, `0`, `-0`, `1`, `-1`, `12`, `1.5`, `-2.25`, `1e2`, `1E+2`, `0.10`, `1e400`, `1e-400`, `123456789012345678901234567890`,
+var scalarTexts = []string{`null`, `true`, `false`, `0`, `-0`, `-0.0`, `"-0.0"`, `-0e0`, `"-1e-400"`, `1`, `-1`, `12`, `1.5`, `-2.25`, `1e2`, `1E+2`, `0.10`, `1e400`, `1e-400`, `123456789012345678901234567890`,
 	`255`, `256`, `-129`, `65536`, `2147483648`, `9223372036854775807`, `9223372036854775808`, `18446744073709551616`, `1632518460`, `253402300799`, `253402300800`, `-62167219201`, `-62135596800`, `0.5`,
 	`""`, `"a"`, `"12"`, `"-1"`, `"1.5"`, `"true"`, `"false"`, `"TRUE"`, `"t"`, `"1e2"`, `"0x10"`, `"010"`, `"NaN"`, `"Inf"`, `" 1"`, `"2021-09-24"`, `"2021-02-30"`, `"2021-9-24"`, `"2021-09-24T21:21:00Z"`,
 	`"2021-09-24T21:21:00+02:00"`, `"2021-09-24T21:21:00.5-03:30"`, `"2021-01-02T3:04:05Z"`, `"2021-01-02T03:04:05,5Z"`, `"2021-01-02T03:04:05.123456789123Z"`, `"2021-01-02T03:04:05.5+00:00"`, `"2021-09-24T21:21:00"`, `"2021-09-24T21:21:00+24:60"`, `"0000-01-01T00:00:00Z"`, `"9999-12-31T23:59:59Z"`, `"1632518460"`,
